@@ -1089,7 +1089,12 @@ class AdvancedHTMLParser(HTMLParser):
 
         rootNode.remove()
 
-        return rootNode.blocks
+        if isInvisibleRootTag(rootNode):
+            # Several top-level blocks: they are the contents of the invisible root.
+            return rootNode.blocks
+
+        # A single top-level tag: that tag is the block, not its contents
+        return [rootNode]
 
 
 class _OtherAttributeIndexFunction(object):
